@@ -34,48 +34,68 @@ type inst struct {
 	Kd   int  `json:"kd"`
 	Unit bool `json:"unit"`
 	// QR family
-	Q    imat      `json:"Q"`
-	RR   imat      `json:"RR"`
-	C    imat      `json:"C"`
-	QC   imat      `json:"QC"`
-	QTC  imat      `json:"QTC"`
-	CQ   imat      `json:"CQ"`
-	CQT  imat      `json:"CQT"`
-	CR   imat      `json:"CR"`
-	Qidx []int     `json:"qidx"`
-	XMN  imat      `json:"XMN"`
-	BMN  imat      `json:"BMN"`
-	Pd   []int64   `json:"pd"`
-	Pe   []int64   `json:"pe"`
-	D    []int64   `json:"D"`
-	L1   []int64   `json:"l"`
-	PB   imat      `json:"PB"`
-	Gdl  []int64   `json:"gdl"`
-	Gd   []int64   `json:"gd"`
-	Gdu  []int64   `json:"gdu"`
-	GB   imat      `json:"GB"`
-	Npiv int       `json:"npiv"`
-	K1   int       `json:"k1"`
-	K2   int       `json:"k2"`
-	SwF  imat      `json:"swF"`
-	SwB  imat      `json:"swB"`
-	Kc   []int     `json:"kc"`
-	Kr   []int     `json:"kr"`
-	PcF  imat      `json:"pcF"`
-	PcB  imat      `json:"pcB"`
-	PrF  imat      `json:"prF"`
-	PrB  imat      `json:"prB"`
-	Nge  []int64   `json:"nge"`
-	Nsy  []int64   `json:"nsy"`
-	Ntr  [][]int64 `json:"ntr"`
-	Deep bool      `json:"deep"`
-	PI   imat      `json:"PI"`
-	AI   imat      `json:"AI"`
-	Nf   int       `json:"nf"`
-	Jin  []int     `json:"jin"`
-	Jpvt []int     `json:"jpvt"`
-	Tau  []int64   `json:"tau"`
-	T    imat      `json:"T"`
+	Q     imat      `json:"Q"`
+	RR    imat      `json:"RR"`
+	C     imat      `json:"C"`
+	QC    imat      `json:"QC"`
+	QTC   imat      `json:"QTC"`
+	CQ    imat      `json:"CQ"`
+	CQT   imat      `json:"CQT"`
+	CR    imat      `json:"CR"`
+	Qidx  []int     `json:"qidx"`
+	XMN   imat      `json:"XMN"`
+	BMN   imat      `json:"BMN"`
+	Pd    []int64   `json:"pd"`
+	Pe    []int64   `json:"pe"`
+	D     []int64   `json:"D"`
+	L1    []int64   `json:"l"`
+	PB    imat      `json:"PB"`
+	Gdl   []int64   `json:"gdl"`
+	Gd    []int64   `json:"gd"`
+	Gdu   []int64   `json:"gdu"`
+	GB    imat      `json:"GB"`
+	Npiv  int       `json:"npiv"`
+	K1    int       `json:"k1"`
+	K2    int       `json:"k2"`
+	SwF   imat      `json:"swF"`
+	SwB   imat      `json:"swB"`
+	Kc    []int     `json:"kc"`
+	Kr    []int     `json:"kr"`
+	PcF   imat      `json:"pcF"`
+	PcB   imat      `json:"pcB"`
+	PrF   imat      `json:"prF"`
+	PrB   imat      `json:"prB"`
+	Nge   []int64   `json:"nge"`
+	Nsy   []int64   `json:"nsy"`
+	Ntr   [][]int64 `json:"ntr"`
+	Deep  bool      `json:"deep"`
+	PI    imat      `json:"PI"`
+	AI    imat      `json:"AI"`
+	Nf    int       `json:"nf"`
+	Jin   []int     `json:"jin"`
+	Jpvt  []int     `json:"jpvt"`
+	Tau   []int64   `json:"tau"`
+	T     imat      `json:"T"`
+	Scal  [][]int   `json:"scal"`  // ls: exponents <<ea, eb>> of the scalings A*2^ea, B*2^eb
+	ScalX [][]int   `json:"scalx"` // ls: further scalings (variants=full)
+	SNrhs []int     `json:"snrhs"` // ls: numbers of right-hand sides for the scaled problems
+	// families of specs/lapack/PlantedX.tla
+	Sc     int       `json:"sc"`   // lus: every element of A (and of U, B) is multiplied by 2^sc
+	Rank   int       `json:"rank"` // pst
+	Piv    []int     `json:"piv"`
+	LL     imat      `json:"LL"` // ql: the lower trapezoidal factor in the QL layout
+	Kind   int       `json:"kind"`
+	W      imat      `json:"W"` // con: A^-1 = W / wd
+	Wd     int64     `json:"wd"`
+	NA     []int64   `json:"nA"` // con: one and infinity norm of A
+	One    conBounds `json:"one"`
+	Inf    conBounds `json:"inf"`
+	HaveLU bool      `json:"haveLU"`
+	HaveCH bool      `json:"haveCH"`
+	Gecon  bool      `json:"gecon"` // con: Dgecon is driven (given factors, or a factorization without interchanges)
+	Spd    bool      `json:"spd"`
+	Tri    bool      `json:"tri"`
+	Items  []nrmItem `json:"items"` // nrm
 	// workspace contract
 	Routine string `json:"routine"`
 	Class   string `json:"class"`
